@@ -13,6 +13,7 @@ import (
 	"fmt"
 	"math/rand"
 	"os"
+	"sort"
 	"strings"
 	"sync"
 	"sync/atomic"
@@ -61,7 +62,7 @@ func main() {
 	flag.Int("workers", 1, "")
 	flag.Bool("progress", false, "")
 	flag.Parse()
-	e, err := env.New(env.Opts{SkipFsync: true, SkipSortDocs: *skip, FracSize: 600, CacheSize: 64 << 10, Workers: 4})
+	e, err := env.New(env.Opts{SkipFsync: true, SkipSortDocs: *skip, FracSize: 600, CacheSize: 64 << 10, Workers: 4, FPI: 2})
 	if err != nil {
 		fmt.Printf(`{"infra":%q}`+"\n", err.Error())
 		os.Exit(3)
@@ -228,6 +229,77 @@ func main() {
 			problem("final search failed: %v", err)
 		} else if len(res.IDs) != len(ackedList) || int(res.Total) != len(ackedList) {
 			problem("writers idle: %d documents acknowledged, search finds %d (total %d)", len(ackedList), len(res.IDs), res.Total)
+		}
+		// pages: the same data ingested sequentially into one fraction answers a limited query with the first documents of
+		// the one ordered list (timestamps repeat across the writers and across the rotations of this run, so the cut
+		// falls inside groups of equal timestamps that are spread over fractions; no total: the searcher may stop early)
+		sorted := append([]env.Doc(nil), ackedList...)
+		sort.Slice(sorted, func(i, j int) bool {
+			return sorted[i].MID > sorted[j].MID || (sorted[i].MID == sorted[j].MID && sorted[i].RID > sorted[j].RID)
+		})
+		for _, order := range []string{"desc", "asc"} {
+			for _, lim := range []int{1, 2, 3, 4, 5, 7, 9, 12, 16, 25, 40} {
+				if lim > len(sorted) {
+					break
+				}
+				res, err := e.SearchAST(ast, env.Params{From: 0, To: 1 << 40, Limit: lim, Order: order})
+				evals.Add(1)
+				if err != nil || len(res.IDs) != lim {
+					problem("writers idle: page of %d (%s) failed: %v %v", lim, order, res, err)
+					break
+				}
+				for i := 0; i < lim; i++ {
+					d := sorted[i]
+					if order == "asc" {
+						d = sorted[len(sorted)-1-i]
+					}
+					if res.IDs[i] != [2]uint64{d.MID, d.RID} {
+						problem("writers idle: page of %d (%s) differs from the sequentially ingested data at position %d: got %v, want [%d %d]", lim, order, i, res.IDs[i], d.MID, d.RID)
+						break
+					}
+				}
+			}
+		}
+		// ... and the same with the window's newer (older) end on every fraction's newest (oldest) timestamp, so that the cut
+		// falls next to a border between fractions, where documents of one timestamp lie on both sides
+	borders:
+		for _, f := range e.FM().GetAllFracs() {
+			inf := f.Info()
+			if inf.DocsTotal == 0 {
+				continue
+			}
+			for _, order := range []string{"desc", "asc"} {
+				var win []env.Doc
+				from, to := uint64(0), uint64(1<<40)
+				if order == "desc" {
+					to = uint64(inf.To)
+				} else {
+					from = uint64(inf.From)
+				}
+				for _, d := range sorted {
+					if d.MID >= from && d.MID <= to {
+						win = append(win, d)
+					}
+				}
+				for lim := 1; lim <= 6 && lim <= len(win); lim++ {
+					res, err := e.SearchAST(ast, env.Params{From: from, To: to, Limit: lim, Order: order})
+					evals.Add(1)
+					if err != nil || len(res.IDs) != lim {
+						problem("writers idle: page of %d (%s, window [%d,%d]) failed: %v %v", lim, order, from, to, res, err)
+						break borders
+					}
+					for i := 0; i < lim; i++ {
+						d := win[i]
+						if order == "asc" {
+							d = win[len(win)-1-i]
+						}
+						if res.IDs[i] != [2]uint64{d.MID, d.RID} {
+							problem("writers idle: page of %d (%s, window [%d,%d] ending on a fraction's border) differs from the sequentially ingested data at position %d: got %v, want [%d %d]", lim, order, from, to, i, res.IDs[i], d.MID, d.RID)
+							break borders
+						}
+					}
+				}
+			}
 		}
 		for i, d := range ackedList {
 			if i%7 != 0 {
